@@ -631,6 +631,18 @@ def assemble(unit_name, twin=False):
     text = unit.out.finish()
     return unit, text
 
+def _twin(fs, twin):
+    """vacuity probes.  "entry": `assert(false)` at the start of every contracted body (must fail: the
+    preconditions are satisfiable).  ("fn", id): `ensures false` on that ONE function only (must fail: no
+    callee or shim contract it relies on is contradictory).  Adding `ensures false` to every function at once
+    would be wrong: callers would inherit `false` from their callees."""
+    if not twin or fs.nobody:
+        return
+    if twin == "entry":
+        fs.ghosts.insert(0, ["first", None, None, "    assert(false); // VACUITY-ENTRY\n"])
+    elif isinstance(twin, tuple) and twin[0] == "fn" and twin[1] == fs.ident:
+        fs.ensures.append(Clause("ensures", "VACUITY", ["_vacuity"], "false"))
+
 def _process(unit, path, twin):
     rel = os.path.relpath(path, CONTRACTS)
     lines = open(path).read().split("\n")
@@ -656,8 +668,7 @@ def _process(unit, path, twin):
                 ws = arg.split()
                 fs = load_vc(ws[0])
                 fs.nobody = fs.nobody or "nobody" in ws[1:]
-                if twin and not fs.nobody:
-                    fs.ensures.append(Clause("ensures", "VACUITY", ["_vacuity"], "false"))
+                _twin(fs, twin)
                 add_fn(unit, fs)
             elif cmd == "fn":
                 # inline contract block until //@end
@@ -670,8 +681,7 @@ def _process(unit, path, twin):
                 i += 1
                 ident = arg.split()[0]
                 fs = parse_vc(ident, "\n".join(blk))
-                if twin and not fs.nobody:
-                    fs.ensures.append(Clause("ensures", "VACUITY", ["_vacuity"], "false"))
+                _twin(fs, twin)
                 add_fn(unit, fs)
             else:
                 raise ScanError("unknown directive %s in %s" % (cmd, rel))
